@@ -339,6 +339,58 @@ WITNESSES = {
     # C03's D38: dl_type wildcarded with 0x0800 left in the field: nw_src is ignored, the flow is match-all and gets replaced
     "wildcarded_prereq": [fm(ADD, M_ALL_RAWIP, 100, cookie=1), fm(ADD, M_ALL, 100, cookie=2)],
 }
+# ------------------------------------------------------------------ one flow, many spellings on the wire
+# A 40-byte ofp_match says more than the flow it denotes: wildcard bits 22..31 are undefined, a prefix count above 32 means 32,
+# the wildcard bits and values of fields whose prerequisite is not specified are ignored, a wildcarded field still carries a value,
+# address bits below the prefix and the two ECN bits of nw_tos do not take part.  Wherever the code normalises one of these it must
+# do so for what it STORES and for what it COMPARES; the specification's table knows the flow only.  `spellings` lists other
+# records of the same flow (each checked here against the transcription: same packets, same rank), the histories of
+# `spelling_cases` / `respell` use a different spelling in every operation on a flow.
+HI_PATTERNS = [1 << k for k in range(10)] + [0x3ff, 0x2aa, 0x155]          # bits 22..31: each alone, all, alternating
+def with_hi(r, hi):
+    s = list(r); s[W] = (r[W] & 0x3fffff) | (hi & 0x3ff) << 22
+    return s
+JUNK = {IN_PORT: 7, DL_SRC: 0x0badc0ffee00, DL_DST: 0xffffffffffff, DL_VLAN: 0x0123, PCP: 5, DL_TYPE: 0x0800, TOS: 0xfd, PROTO: 6, TP_SRC: 80, TP_DST: 65535}
+
+def spellings(r, cfg, hi_patterns=HI_PATTERNS):
+    """other wire records of the flow `r` (never `r` itself).  cfg: the repairs the tree under test has (probe_variant) — a spelling
+    in the input class of a finding that tree still has is left out, as everywhere in the generators."""
+    r = list(r)
+    out = []
+    def put(s):
+        if s != r and s not in out and spec_identical(r, s) and spec_rank_sig(100, s) == spec_rank_sig(100, r): out.append(s)
+    if cfg[1]:
+        for hi in hi_patterns: put(with_hi(r, hi))
+    n_hi = len(out)
+    # prefix counts: 32..63 all mean "ignore the address"; without IPv4/ARP specified the address is ignored whatever the count says
+    for shift, ign, f in ((8, ign_src, NW_SRC), (14, ign_dst, NW_DST)):
+        if ign(r) == 32:
+            for c in (32, 33, 47, 63):
+                s = list(r); s[W] = r[W] & ~(63 << shift) | c << shift; put(s)
+                if cfg[0]: s = list(s); s[f] = 0x0a010203; put(s)                 # ... and the address field holds anything
+        if not nw_specified(r) and (not wild(r, DL_TYPE) or cfg[4]):
+            s = list(r); s[W] = r[W] & ~(63 << shift) | 8 << shift; s[f] = 0x0a000000; put(s)
+        if 0 < ign(r) < 32 and nw_specified(r) and cfg[0]:                       # address bits below the prefix
+            s = list(r); s[f] = r[f] ^ 1; put(s)
+            s = list(r); s[f] = r[f] | ((1 << ign(r)) - 1); put(s)
+    # wildcard bit and value of a field the prerequisites make the switch ignore
+    for f in (TOS, PROTO, TP_SRC, TP_DST):
+        if not significant(r, f) and (not wild(r, DL_TYPE) or cfg[4]) and (f in (TOS, PROTO) or not wild(r, PROTO) or cfg[4]):
+            s = list(r); s[W] = r[W] ^ (1 << c03.BIT[f]); s[f] = JUNK[f]; put(s)
+    # a wildcarded field still carries a value (the prerequisite fields only where the tree has C03's repair D38)
+    s = list(r)
+    for f in ALLF:
+        if wild(r, f) and (f not in (DL_TYPE, PROTO) or cfg[4]): s[f] = JUNK[f]
+    put(s)
+    if significant(r, TOS) and cfg[6]:                                           # ECN bits of the ToS byte
+        for x in (1, 2, 3): s = list(r); s[TOS] = r[TOS] ^ x; put(s)
+    # combinations: the all-ones word, OFPFW_ALL with and without the undefined bits
+    if cfg[1]:
+        for base in list(out[n_hi:]): put(with_hi(base, 0x3ff))
+        if r[W] & 0x3fffff == mkwild(ALLF, 32, 32):
+            put([0xffffffff] + r[1:]); put([0x3fffff] + r[1:]); put([0xffc00000 | mkwild(ALLF, 32, 32)] + r[1:])
+    return out
+
 # witnesses that belong to a C03 finding: the oracle is applied only when the tree under test has that repair (index into self.cfg:
 # 3 arpLow8, 4 prereqExact, 5 exactSig — read off the source by c03 —, 6 tosDscp — probed); the model-vs-code tie always runs
 C03_GATED = {"exact_rank_defect": 5, "wildcarded_prereq": 4, "arp_opcode_high": 3, "tos_ecn_defect": 6}
@@ -819,7 +871,65 @@ class C04(Check):
                                  fm(MODIFY, M_TCP80, 100, CHECK_OVERLAP, cookie=7), fm(MODIFY_STRICT, M_DST16, 100, CHECK_OVERLAP, cookie=8)]},
         ]
         cases += self.hardening_cases()
+        cases += self.spelling_cases()
         return cases
+
+    def spelling_cases(self):
+        """every operation on a flow uses another wire spelling of it (see `spellings`): the first, the second, both, for every
+        command in either place, with traffic and statistics in between; all through the switch connection as bytes"""
+        fr = self.frames()
+        pk = lambda i, port=1: {"op": "pkt", "frame": fr[i], "port": port}
+        fs = lambda m=M_ALL, port=NONE: {"op": "fstats", "m": list(m), "out_port": port}
+        ags = lambda m=M_ALL, port=NONE: {"op": "astats", "m": list(m), "out_port": port}
+        F = SEND_FLOW_REM
+        out = []
+        def add(ops, **kw): out.append(dict({"max": 100, "ops": copy.deepcopy(ops), "fam": "spell"}, **kw))
+        flows = [(M_ALL, pk(4, 2)), (M_NET8, pk(0)), (M_IP, pk(1, 2)), (M_TCP80, pk(0)), (M_ARP, pk(3, 3)), (M_EXACT, pk(0)), (M_INPORT1, pk(4, 1)),
+                 (M_DST16, pk(0))] + ([(M_TOS0, pk(5))] if self.cfg[6] else [])
+        second = [(ADD, F), (ADD, F | CHECK_OVERLAP), (MODIFY, 0), (MODIFY_STRICT, 0), (DELETE, 0), (DELETE_STRICT, 0)]
+        for nf, (r, hit) in enumerate(flows):
+            S = spellings(r, self.cfg)
+            if not S: continue
+            pairs = []
+            for j, s in enumerate(S): pairs += [(r, s), (s, r), (s, s), (s, S[(j + 1) % len(S)])]
+            # (a) one long history per pair of spellings: every command meets the flow installed under the other spelling
+            for j, (s1, s2) in enumerate(pairs):
+                first = [ADD, MODIFY, MODIFY_STRICT][j % 3]                         # MODIFY[_STRICT] on an empty table acts as ADD
+                add([fm(first, s1, 100, F, acts=ACTS[1], cookie=1), hit, fm(ADD, s2, 100, F, acts=ACTS[2], cookie=2), hit, fs(s1),
+                     fm(MODIFY_STRICT, s1, 100, acts=ACTS[4], cookie=3), fm(MODIFY, s2, 7, acts=ACTS[6], cookie=4), hit, ags(s2, 2),
+                     fm(DELETE_STRICT, s2, 99), fm(DELETE_STRICT, s1, 100, out_port=3), fm(DELETE_STRICT, s2, 100, out_port=2),
+                     fm(ADD, s1, 100, F | CHECK_OVERLAP, cookie=5), fm(ADD, s2, 100, F | CHECK_OVERLAP, cookie=6), hit, fm(DELETE, s2, 0), fs()])
+            # (b) short histories, one per command in second place (so that each has its own failing input), over the undefined
+            #     wildcard bits at both ends of the range / all of them and two spellings of the other kinds
+            few = [s for s in S if s[W] >> 22 in (1, 0x200, 0x3ff) and s[1:] == list(r)[1:] and (s[W] ^ r[W]) & 0x3fffff == 0] + [s for s in S if s[W] >> 22 == 0][nf % 2::3][:2]
+            for s in few:
+                for (s1, s2) in ((r, s), (s, r), (s, s)):
+                    for first in ((ADD,) if s1 is r else (ADD, MODIFY, MODIFY_STRICT)):
+                        for (cmd, flags) in second:
+                            add([fm(first, s1, 100, F, acts=ACTS[1], cookie=1), hit, fm(cmd, s2, 100, flags, acts=ACTS[2], cookie=2), hit, fs(s2)])
+            # (c) another flow with the same spelling habits next to it, at another priority: only the named flow is concerned
+            other = M_ARP if r is not M_ARP else M_IP
+            for s in few[:3]:
+                so = (spellings(other, self.cfg, [s[W] >> 22]) or [other])[0]
+                add([fm(ADD, so, 100, F, acts=ACTS[1], cookie=8), fm(ADD, s, 50, F, acts=ACTS[1], cookie=1), fm(ADD, r, 100, F, acts=ACTS[2], cookie=2), hit,
+                     fm(ADD, s, 50, F, acts=ACTS[3], cookie=3), fm(MODIFY_STRICT, s, 100, acts=ACTS[4], cookie=4), fm(DELETE_STRICT, s, 50), fs(s),
+                     fm(DELETE_STRICT, so, 100), fm(DELETE, s), fs()])
+        return out
+
+    def respell(self, rng, case):
+        """the same history with every flow-mod / statistics request written in a randomly chosen spelling of its flow"""
+        def one(op):
+            if op["op"] == "batch":
+                for o in op["ops"]: one(o)
+            elif op["op"] in ("fm", "fstats", "astats") and rng.random() < 0.7:
+                key = tuple(op["m"])
+                if key not in self._spell: self._spell[key] = spellings(op["m"], self.cfg)
+                m = list(rng.choice(self._spell[key] or [op["m"]]))
+                if self.cfg[1] and rng.random() < 0.5: m = with_hi(m, rng.choice([0, rng.getrandbits(10), rng.getrandbits(10), 0x3ff]))
+                op["m"] = m
+        for op in case["ops"]: one(op)
+        case["fam"] = "respell"
+        return case
 
     def hardening_cases(self):
         """the input shapes of HARDENING.md, one family per item"""
